@@ -8,6 +8,7 @@ import (
 	"github.com/taurusgroup/multi-party-sig/pkg/party"
 	"github.com/taurusgroup/multi-party-sig/pkg/protocol"
 	"github.com/taurusgroup/multi-party-sig/verif/fw"
+	"github.com/taurusgroup/multi-party-sig/verif/mut"
 	"github.com/taurusgroup/multi-party-sig/verif/scen"
 	"github.com/taurusgroup/multi-party-sig/verif/sim"
 )
@@ -34,9 +35,19 @@ func init() {
 	})
 }
 
+// msgKey identifies an emitted message semantically: headers plus a digest of the payload re-encoded
+// canonically (map keys sorted), because Go's random map iteration makes the raw bytes of map-bearing
+// payloads - and therefore the echo hashes that cover them - differ between otherwise identical runs.
 func msgKey(m *protocol.Message) string {
-	h := sha256.Sum256(m.Data)
-	return fmt.Sprintf("r%d b%v to=%q ssid=%x data=%x bv=%x", m.RoundNumber, m.Broadcast, m.To, m.SSID[:min(4, len(m.SSID))], h[:8], m.BroadcastVerification)
+	data := m.Data
+	if t, err := mut.Decode(m.Data); err == nil {
+		func() {
+			defer func() { _ = recover() }()
+			data = mut.Encode(t)
+		}()
+	}
+	h := sha256.Sum256(data)
+	return fmt.Sprintf("r%d b%v to=%q ssid=%x data=%x", m.RoundNumber, m.Broadcast, m.To, m.SSID[:min(4, len(m.SSID))], h[:8])
 }
 
 func min(a, b int) int {
